@@ -29,6 +29,7 @@ Section Count.
     match l with
     | RReq r' _ _ => b2n (Nat.eqb r' r)
     | RBoth a b _ _ _ | RRace a b _ _ => cw_slot a + cw_slot b
+    | RBothJ _ b _ _ => cw_slot b
     | _ => 0
     end.
   Fixpoint cw_frames (st : list rframe) : nat :=
@@ -67,7 +68,7 @@ Proof.
   cbn [run_strand] in E. destruct s as [u en lf st]. cbn [s_uid s_env s_stack s_leaf] in E.
   Ltac fin E := inversion E; subst; clear E; split; [lia | intros rr; unfold cw_opt, cw_strand; simpl; bl].
   Ltac rec IH E := apply IH in E; destruct E as [L C]; split; [lia | intros rr; specialize (C rr); revert C; unfold cw_strand; simpl; try rewrite cw_strands_app; simpl; bl].
-  destruct lf as [t|rid x k| |uid k| |a b x1 x2 k|a b x k].
+  destruct lf as [t|rid x k| |uid k| |a b x1 x2 k|a b x k|uid b x k].
   - destruct t.
     + destruct st; [fin E | rec IH E].
     + rec IH E.
@@ -83,6 +84,7 @@ Proof.
     + fin E.
     + fin E.
     + fin E.
+    + fin E.
     + rec IH E.
   - fin E.
   - destruct st as [|fr rest]; [fin E|].
@@ -93,6 +95,7 @@ Proof.
   - fin E.
   - destruct a, b; try (fin E); rec IH E.
   - destruct a, b; try (fin E); rec IH E.
+  - fin E.
 Qed.
 
 (* ---------- a bag of strands ---------- *)
@@ -202,7 +205,7 @@ Lemma deliver_strand_cw r rid v s : cw_strand r (snd (deliver_strand rid v s)) <
 Proof.
   unfold deliver_strand, cw_strand.
   pose proof (cw_frames_map r (buf_frame rid v) (s_stack s) (buf_frame_rid rid v)) as FM. unfold buf_frame in FM.
-  destruct (s_leaf s) as [t|r' x k| |u k| |a b x1 x2 k|a b x k] eqn:EL; cbn [snd s_leaf s_stack]; try (rewrite FM, ?EL; simpl; lia).
+  destruct (s_leaf s) as [t|r' x k| |u k| |a b x1 x2 k|a b x k|uid b x k] eqn:EL; cbn [snd s_leaf s_stack]; try (rewrite FM, ?EL; simpl; lia).
   - destruct (Nat.eqb r' rid); cbn [snd s_leaf s_stack]; [simpl; lia | rewrite FM, ?EL; simpl; lia].
   - pose proof (fill_slot_cw r rid v a). pose proof (fill_slot_cw r rid v b).
     destruct (fill_slot rid v a) as [ta a'], (fill_slot rid v b) as [tb b']. cbn [snd] in *.
@@ -210,6 +213,9 @@ Proof.
   - pose proof (fill_slot_cw r rid v a). pose proof (fill_slot_cw r rid v b).
     destruct (fill_slot rid v a) as [ta a'], (fill_slot rid v b) as [tb b']. cbn [snd] in *.
     destruct (ta || tb); cbn [snd s_leaf s_stack]; [simpl; lia | rewrite FM, ?EL; simpl; lia].
+  - pose proof (fill_slot_cw r rid v b).
+    destruct (fill_slot rid v b) as [tb b']. cbn [snd] in *.
+    destruct tb; cbn [snd s_leaf s_stack]; [simpl; lia | rewrite FM, ?EL; simpl; lia].
 Qed.
 
 Lemma deliver_cw r rid v : forall c, cw_rc r (snd (deliver rid v c)) <= cw_rc r c.
@@ -232,11 +238,13 @@ Lemma kill_waiter_cw r rid s : cw_strand r (kill_waiter rid s) <= cw_strand r s.
 Proof.
   unfold kill_waiter. destruct (waits_once rid s).
   - unfold cw_strand; simpl. lia.
-  - destruct (s_leaf s) as [t|r' x k| |u k| |a b x1 x2 k|a b x k] eqn:EL; rewrite close_frames_cw; try lia.
+  - destruct (s_leaf s) as [t|r' x k| |u k| |a b x1 x2 k|a b x k|uid b x k] eqn:EL; rewrite close_frames_cw; try lia.
     + unfold cw_strand. cbn [s_leaf s_stack]. rewrite EL. simpl.
       pose proof (gone_slot_cw r rid a). pose proof (gone_slot_cw r rid b). lia.
     + unfold cw_strand. cbn [s_leaf s_stack]. rewrite EL. simpl.
       pose proof (gone_slot_cw r rid a). pose proof (gone_slot_cw r rid b). lia.
+    + unfold cw_strand. cbn [s_leaf s_stack]. rewrite EL. simpl.
+      pose proof (gone_slot_cw r rid b). lia.
 Qed.
 Lemma dropreq_cw r rid : forall c, cw_rc r (dropreq rid c) <= cw_rc r c.
 Proof.
@@ -363,10 +371,11 @@ Lemma deliver_strand_other rid v s : cw_strand rid s = 0 -> deliver_strand rid v
 Proof.
   unfold cw_strand, deliver_strand. destruct s as [u en lf st]. cbn [s_leaf s_stack s_uid s_env]. intros E.
   assert (EF : cw_frames rid st = 0) by lia. destruct (frames_other rid v st EF) as [X M]. rewrite X, M.
-  destruct lf as [t|r' x k| |u' k| |a b x1 x2 k|a b x k]; try reflexivity; cbn [cw_leaf] in E.
+  destruct lf as [t|r' x k| |u' k| |a b x1 x2 k|a b x k|uid b x k]; try reflexivity; cbn [cw_leaf] in E.
   - destruct (Nat.eqb r' rid); [discriminate | reflexivity].
   - rewrite (fill_slot_other rid v a), (fill_slot_other rid v b) by lia. reflexivity.
   - rewrite (fill_slot_other rid v a), (fill_slot_other rid v b) by lia. reflexivity.
+  - rewrite (fill_slot_other rid v b) by lia. reflexivity.
 Qed.
 Lemma deliver_strand_req rid v s x k : s_leaf s = RReq rid x k ->
   deliver_strand rid v s = (true, mkRS (s_uid s) (setv x v (s_env s)) (RRun k) (s_stack s)).
